@@ -20,4 +20,5 @@ def run(rep):
         sc.leg_a(rep, 'C04', 5, 3, 3)
     sc.leg_b(rep, 'C04', 30 if quick else 400, 40 if quick else 60, 3 if quick else 4, 4 if quick else 5,
              list(gen.FAMILIES), ms=(0, 1, 2, 5, 20), ks=())
+    sc.scale_by_tiling(rep, 33200 if quick else 70000, ms=(0, 4))
     rep.exhaustive = True
